@@ -78,6 +78,8 @@ def cases(tier):
                 out.append(dict(base, design=d, core=7, re=re, wall='none', eqT=True, power='asym'))
                 out.append(dict(base, design=d, core=7, re=re, wall='none', ducts='2f'))
                 out.append(dict(base, design=d, core=7, re=re, wall='no_flow', ducts='2w'))
+                for wall in ('none', 'flow'):
+                    out.append(dict(base, design=d, core=7, re=re, wall=wall, flows='spread', power='asym'))
         for ca in (True,):
             for du in ('1', '2f'):
                 for re in ('vlow', 'lam'):
@@ -219,13 +221,17 @@ def build(c, power):
         a0 = scn['assign'][0]
         flow = a0[3]['flowrate']
         # same type, different flows; the lowest flow is not in the first position
+        fac = (0.8, 0.35, 0.9, 0.6, 1.2, 0.5)
+        if c.get('flows') == 'spread':
+            # a thirty-fold spread; the lowest flows follow the highest ones and the last assembly has the highest
+            fac = (4.0, 0.125, 2.0, 0.25, 1.0, 4.0)
         scn['assign'] = [['A', 1, 1, {'flowrate': flow}]] + \
-            [['A', 2, p, {'flowrate': flow * f}] for p, f in zip(range(1, 7), (0.8, 0.35, 0.9, 0.6, 1.2, 0.5))]
+            [['A', 2, p, {'flowrate': flow * f}] for p, f in zip(range(1, 7), fac)]
         spec = scn['power']['asm']['1']
         scn['power']['asm'] = {str(i + 1): dict(spec, seed=i) for i in range(7)}
         if c.get('eqT'):
             # power proportional to flow: every assembly of the type has the same estimated outlet temperature
-            for i, f in enumerate((1.0, 0.8, 0.35, 0.9, 0.6, 1.2, 0.5)):
+            for i, f in enumerate((1.0,) + fac):
                 scn['power']['asm'][str(i + 1)]['q'] = spec['q'] * f
     if c.get('unit'):
         from . import c17
